@@ -138,3 +138,8 @@ Print Assumptions C02_crates_release_exact.
 Print Assumptions C02_gha_same_relation.
 Print Assumptions C02_go_exists.
 Print Assumptions C02_pypi_exists.
+
+(* a ref the matcher accepts is version-like: with C02_gha_invalid, a ref with more than three components (or none)
+   is reported Invalid *)
+Theorem C02_gha_accepts_ref_like : forall s, normalize_parse s <> None -> ref_like s = true.
+Proof. exact gha_accepts_ref_like. Qed.
